@@ -59,6 +59,37 @@ type c13Rig struct {
 	// what each Adj-RIB-In peer currently announces per prefix (by value)
 	announced [2]map[int]dxAttrs
 	statics   map[int][]dxAttrs
+	// registry: every path object that was seen stored in a table (at an
+	// operation boundary or when an Adj-RIB-Out announced it to its client) with
+	// the value it had then. Stored objects are immutable; checked at every
+	// client event (i.e. between the export code of one session and the next
+	// inside a single Loc-RIB event) and at every operation boundary.
+	registry map[*route.Path]c13Obj
+	mutated  string
+}
+
+// verifyRegistry records the first stored object whose value changed.
+func (r *c13Rig) verifyRegistry(when string) {
+	if r.mutated != "" {
+		return
+	}
+	for p, b := range r.registry {
+		if now := dxDeep(p); now != b.val {
+			r.mutated = fmt.Sprintf("a path object stored in %s was modified in place (noticed %s):\n  before %s\n  after  %s", b.where, when, b.val, now)
+			return
+		}
+	}
+}
+
+func (r *c13Rig) hookFor(j int) func(bool, *bnet.Prefix, *route.Path) {
+	return func(add bool, pfx *bnet.Prefix, p *route.Path) {
+		r.verifyRegistry(fmt.Sprintf("when adj-rib-out#%d told its client about %s", j, pfx))
+		if add {
+			if _, ok := r.registry[p]; !ok {
+				r.registry[p] = c13Obj{where: fmt.Sprintf("adj-rib-out#%d %s", j, pfx), val: dxDeep(p)}
+			}
+		}
+	}
 }
 
 func c13InAttrs(p dxPeer) routingtable.SessionAttrs {
@@ -74,7 +105,7 @@ func c13InAttrs(p dxPeer) routingtable.SessionAttrs {
 }
 
 func newC13Rig(bits []kit.Bits, pfxs []*bnet.Prefix) *c13Rig {
-	r := &c13Rig{pfxs: pfxs, bits: bits, statics: map[int][]dxAttrs{}}
+	r := &c13Rig{pfxs: pfxs, bits: bits, statics: map[int][]dxAttrs{}, registry: map[*route.Path]c13Obj{}}
 	r.v = vrf.NewUntrackedVRF("c13", 0)
 	r.rib, _ = r.v.CreateIPv4UnicastLocRIB("inet.0")
 	r.v.AddContributingASN(dxLocalASN)
@@ -91,6 +122,7 @@ func (r *c13Rig) addOut(s dxSession, pol dxPolicy) *c13Out {
 	o := &c13Out{s: s, pol: pol}
 	o.aro = New(r.rib, s.attrs(), pol.chain(r.pfxs))
 	o.rec = newDxRecorder(s.AddPathN > 0)
+	o.rec.hook = r.hookFor(len(r.outs))
 	o.aro.Register(o.rec)
 	r.outs = append(r.outs, o)
 	r.rib.RegisterWithOptions(o.aro, s.clientOptions())
@@ -288,6 +320,7 @@ func c13Run(t *rapid.T, c *kit.Case, rec *kit.Recorder, maxSteps int) {
 				rig.rib.Unregister(o.aro)
 				o.aro = New(rig.rib, o.s.attrs(), o.pol.chain(pfxs))
 				o.rec = newDxRecorder(o.s.AddPathN > 0)
+				o.rec.hook = rig.hookFor(j)
 				o.aro.Register(o.rec)
 				rig.rib.RegisterWithOptions(o.aro, o.s.clientOptions())
 			}
@@ -322,8 +355,24 @@ func c13Run(t *rapid.T, c *kit.Case, rec *kit.Recorder, maxSteps int) {
 		}
 		// stored objects keep their value
 		for p, b := range beforeO {
-			if now := dxDeep(p); now != b.val {
-				fail(what, fmt.Sprintf("a path object stored in %s was modified in place:\n  before %s\n  after  %s", b.where, b.val, now))
+			if _, ok := rig.registry[p]; !ok {
+				rig.registry[p] = b
+			}
+		}
+		rig.verifyRegistry("after the operation")
+		if rig.mutated != "" {
+			fail(what, rig.mutated)
+		}
+		// forget objects no table holds any more (keeps the registry small)
+		live := rig.snapObjects()
+		for p := range rig.registry {
+			if _, ok := live[p]; !ok {
+				delete(rig.registry, p)
+			}
+		}
+		for p, b := range live {
+			if _, ok := rig.registry[p]; !ok {
+				rig.registry[p] = b
 			}
 		}
 		if exportSide >= 0 {
